@@ -188,19 +188,46 @@ class Out:
 
 # ------------------------------------------------------------------ the core library
 class Core:
-    """persistent lmv-pycore process: one request line -> one answer line"""
+    """persistent lmv-pycore process: one request line -> one answer line.  A request the core library
+    does not answer within `timeout` seconds is answered `hang` (the process is replaced)."""
 
-    def __init__(self):
-        exe = os.environ["LMV_PYCORE"]
-        self.p = subprocess.Popen([exe], stdin=subprocess.PIPE, stdout=subprocess.PIPE, text=True, bufsize=1)
+    def __init__(self, timeout=4.0):
+        self.exe = os.environ["LMV_PYCORE"]
+        self.timeout = timeout
+        self.start()
+
+    def start(self):
+        self.p = subprocess.Popen([self.exe], stdin=subprocess.PIPE, stdout=subprocess.PIPE, bufsize=0)
 
     def ask(self, backend, op, alpha, args):
-        self.p.stdin.write(f"{backend} {op} {alpha} {args}\n")
-        self.p.stdin.flush()
-        line = self.p.stdout.readline()
-        if not line:
-            raise RuntimeError("lmv-pycore died on: " + f"{backend} {op} {alpha} {args}"[:300])
-        return line.rstrip("\n")
+        import select
+        req = f"{backend} {op} {alpha} {args}\n".encode()
+        try:
+            self.p.stdin.write(req)
+            self.p.stdin.flush()
+        except BrokenPipeError:
+            self.start()
+            return "died"
+        buf = b""
+        fd = self.p.stdout.fileno()
+        deadline = self.timeout
+        import time
+        t0 = time.time()
+        while not buf.endswith(b"\n"):
+            left = deadline - (time.time() - t0)
+            r, _, _ = select.select([fd], [], [], max(0.0, left))
+            if not r:
+                self.p.kill()
+                self.p.wait()
+                self.start()
+                return "hang"
+            chunk = os.read(fd, 1 << 16)
+            if not chunk:
+                self.p.wait()
+                self.start()
+                return "died"
+            buf += chunk
+        return buf.decode().rstrip("\n")
 
     def close(self):
         try:
